@@ -2,7 +2,7 @@
 From Coq Require Import List Arith Bool String Permutation.
 From PyHam Require Import Tax Ortho Loader Mapper Preds Hist Filter Spell.
 From PyHam Require Import Whole.
-From PyHam.proofs Require Import LoaderFacts ExplicitFacts FilterFacts NamingFacts SpellFacts HpermFacts WholeFacts DeclOrderFacts.
+From PyHam.proofs Require Import LoaderFacts ExplicitFacts FilterFacts NamingFacts SpellFacts HpermFacts WholeFacts DeclOrderFacts LookupFacts.
 Import ListNotations.
 
 (* The listed rewritings are covered as follows.
@@ -89,6 +89,19 @@ Local Open Scope string_scope.
 Definition tr : stree := SNode "R" [SNode "A" []; SNode "B" []; SNode "C" []].
 Definition genes0 : list (string * taxon) := [("a1", [0]); ("a2", [0]); ("b1", [1]); ("c1", [2])].
 (* the same history with lineages and copies in another order is again a well-formed history *)
+(* set iteration order: wherever the code takes the common ancestor of a *set* of genomes (the genomes of a group's
+   children in the parser, of a duplication's copies in DuplicationNode.set_MRCA, of the arguments of a lateral
+   comparison: ham.py _get_ancestral_genome_by_mrca_of_genome_set, abstractgene.py set_MRCA) the model enumerates the
+   set in one particular order (Loader.dedup_tax, then fold_left lcs); any other enumeration of the same elements -
+   whatever the hash seed makes of it - yields the same node, and a one-element set stays a one-element set *)
+Theorem c14_set_iteration_order : forall l l',
+  Permutation l l' -> mrca_of l = mrca_of l' /\ List.length l = List.length l' /\ (forall x, l = [x] -> l' = [x]).
+Proof.
+  intros l l' HP. split; [apply mrca_of_perm; exact HP|]. split; [apply Permutation_length; exact HP|].
+  intros x ->. apply Permutation_length_1_inv. exact HP.
+Qed.
+Print Assumptions c14_set_iteration_order.
+
 Example c14_nonvacuous :
   WFh tr genes0 (XH [] [[XG "a1" [0]; XG "a2" [0]]; [XG "b1" [1]]; [XG "c1" [2]]]) /\
   WFh tr genes0 (XH [] [[XG "c1" [2]]; [XG "a2" [0]; XG "a1" [0]]; [XG "b1" [1]]]).
